@@ -137,16 +137,16 @@ fn login_finish_case(ids_case: u8, has_ctx: bool) {
                     // what the key exchange was given
                     unsafe {
                         check!(REC.calls == 1 && !REC.overflow, "the key exchange is run once");
-                        check!(REC.l1_len == 35 && eq_bytes(&REC.l1[..35], &st[1..36]), "the client's own request goes into the transcript");
-                        check!(REC.l2_len == 75 && eq_bytes(&REC.l2[..75], &rb[0..75]), "evaluation, masking nonce and masked response go into the transcript");
+                        check!(parts_are(&REC.l1, &[&st[1..2], &st[2..36]]), "the client's own request (blinded element, KE1 message) goes into the transcript");
+                        check!(parts_are(&REC.l2, &[&rb[0..1], &rb[1..33], &rb[33..65], &rb[65..73], &rb[73..75]]), "evaluation, masking nonce and masked response go into the transcript");
                         check!(eq_bytes(&REC.ke2_msg, &rb[75..117]), "the server's key-exchange message is handed on unchanged");
                         check!(eq_bytes(&REC.ke1_state, &st[36..69]), "the client's own ephemeral state is used");
                         check!(eq_bytes(&REC.peer_pk, &server_pk), "3DH uses the unmasked server public key");
                         check!(eq_bytes(&REC.own_pk, &client_pk) && client_pk[1] == mulmod(GEN2, client_sk, P2), "3DH uses the client key recovered from the envelope");
                         let eu: &[u8] = id_u.unwrap_or(&client_pk);
                         let es: &[u8] = id_s.unwrap_or(&server_pk);
-                        check!(REC.id_u_len == 2 + eu.len() && REC.id_u[0] == 0 && REC.id_u[1] as usize == eu.len() && eq_bytes(&REC.id_u[2..2 + eu.len()], eu), "effective client identity (length-prefixed) goes into the transcript");
-                        check!(REC.id_s_len == 2 + es.len() && REC.id_s[0] == 0 && REC.id_s[1] as usize == es.len() && eq_bytes(&REC.id_s[2..2 + es.len()], es), "effective server identity (length-prefixed) goes into the transcript");
+                        check!(parts_are(&REC.id_u, &[&[0u8, eu.len() as u8], eu]), "effective client identity (length-prefixed) goes into the transcript");
+                        check!(parts_are(&REC.id_s, &[&[0u8, es.len() as u8], es]), "effective server identity (length-prefixed) goes into the transcript");
                         let ec: &[u8] = if has_ctx { &ctx } else { &[] };
                         check!(REC.ctx_len == ec.len() && eq_bytes(&REC.ctx[..ec.len()], ec), "the caller's context (absent = empty) goes into the transcript");
                     }
@@ -200,17 +200,22 @@ fn start_checks(x: &StartIn, m: &[u8], stb: &[u8], tape: &Tape, has_record: bool
     let (mk, client_pk, env): ([u8; 8], [u8; 2], [u8; 40]) = if has_record {
         check!(tape.pos == 32 && !tape.overrun && eq_bytes(&m[1..33], &tape.buf[0..32]), "masking nonce is 32 fresh bytes from the caller's RNG");
         let mut mk = [0u8; 8];
-        mk.copy_from_slice(&x.recb[2..10]);
+        put(&mut mk, &x.recb[2..10]);
         let mut env = [0u8; 40];
-        env.copy_from_slice(&x.recb[10..50]);
+        put(&mut env, &x.recb[10..50]);
         (mk, [x.recb[0], x.recb[1]], env)
     } else {
         check!(tape.pos == 40 && !tape.overrun, "fake masking key and masking nonce are drawn from the caller's RNG");
+        // either order of the two draws; no symbolic slicing
         let nonce_first = eq_bytes(&m[1..33], &tape.buf[0..32]);
-        let (mk_at, nonce_at) = if nonce_first { (32usize, 0usize) } else { (0usize, 8usize) };
-        check!(eq_bytes(&m[1..33], &tape.buf[nonce_at..nonce_at + 32]), "masking nonce is 32 fresh bytes, disjoint from the fake masking key's");
+        let nonce_second = eq_bytes(&m[1..33], &tape.buf[8..40]);
+        check!(nonce_first || nonce_second, "masking nonce is 32 fresh bytes, disjoint from the fake masking key's");
         let mut mk = [0u8; 8];
-        mk.copy_from_slice(&tape.buf[mk_at..mk_at + 8]);
+        let mut i = 0;
+        while i < 8 {
+            mk[i] = if nonce_first { tape.buf[32 + i] } else { tape.buf[i] };
+            i += 1;
+        }
         (mk, fake_pk, [0u8; 40])
     };
     let masked = spec::mask(&mk, &m[1..33], &server_pk, &env[0..32], &env[32..40]);
@@ -219,15 +224,15 @@ fn start_checks(x: &StartIn, m: &[u8], stb: &[u8], tape: &Tape, has_record: bool
     check!(eq_bytes(stb, &x.ke2_state), "the pending state is the key exchange's state");
     unsafe {
         check!(REC.calls == 1 && !REC.overflow, "the key exchange is run once");
-        check!(REC.l1_len == 35 && eq_bytes(&REC.l1[..35], &x.reqb), "the client's request goes into the transcript");
-        check!(REC.l2_len == 75 && eq_bytes(&REC.l2[..75], &m[0..75]), "evaluation, masking nonce and masked response go into the transcript");
+        check!(parts_are(&REC.l1, &[&x.reqb[0..1], &x.reqb[1..35]]), "the client's request (blinded element, KE1 message) goes into the transcript");
+        check!(parts_are(&REC.l2, &[&m[0..1], &m[1..33], &m[33..65], &m[65..73], &m[73..75]]), "evaluation, masking nonce and masked response go into the transcript");
         check!(eq_bytes(&REC.ke1_msg, &x.reqb[1..35]), "the client's key-exchange message is handed on unchanged");
         check!(eq_bytes(&REC.peer_pk, &client_pk), "3DH uses the record's client public key (the fake key for unregistered users)");
         check!(REC.own_pk_ok && eq_bytes(&REC.own_pk, &server_pk), "3DH uses the setup's static key");
         let eu: &[u8] = id_u.unwrap_or(&client_pk);
         let es: &[u8] = id_s.unwrap_or(&server_pk);
-        check!(REC.id_u_len == 2 + eu.len() && REC.id_u[0] == 0 && REC.id_u[1] as usize == eu.len() && eq_bytes(&REC.id_u[2..2 + eu.len()], eu), "effective client identity (length-prefixed) goes into the transcript");
-        check!(REC.id_s_len == 2 + es.len() && REC.id_s[0] == 0 && REC.id_s[1] as usize == es.len() && eq_bytes(&REC.id_s[2..2 + es.len()], es), "effective server identity (length-prefixed) goes into the transcript");
+        check!(parts_are(&REC.id_u, &[&[0u8, eu.len() as u8], eu]), "effective client identity (length-prefixed) goes into the transcript");
+        check!(parts_are(&REC.id_s, &[&[0u8, es.len() as u8], es]), "effective server identity (length-prefixed) goes into the transcript");
         let ec: &[u8] = ctx.unwrap_or(&[]);
         check!(REC.ctx_len == ec.len() && eq_bytes(&REC.ctx[..ec.len()], ec), "the caller's context (absent = empty) goes into the transcript");
     }
@@ -266,7 +271,7 @@ fn server_login_start_case(has_record: bool, ids_case: u8, has_ctx: bool, cred: 
     assume(outcome == 0 || outcome == 2);
     let mut tape = Tape::symbolic();
     let mut sb = [0u8; 10];
-    sb[..8].copy_from_slice(&x.seed);
+    put(&mut sb[..8], &x.seed);
     sb[8] = x.sk;
     sb[9] = x.fake_sk;
     let Ok(setup) = ServerSetup::<MW>::deserialize(&sb) else { return };
@@ -313,7 +318,7 @@ fn server_login_start_external(has_record: bool) {
     let mut t0 = Tape::symbolic();
     let setup = ServerSetup::<MW, MSecretKey>::new_with_key(&mut t0, kp);
     let sb = setup.serialize(); // oprf_seed(8) | key handle(2) | fake_sk(1)
-    x.seed.copy_from_slice(&sb[0..8]);
+    put(&mut x.seed, &sb[0..8]);
     x.fake_sk = sb[10];
     let Ok(request) = CredentialRequest::<MW>::deserialize(&x.reqb) else { return };
     let record = if has_record {
